@@ -98,14 +98,21 @@ def splitDash : Str → List Str
       | [] => [[c]]
       | h :: t => (c :: h) :: t
 
-/-- `get_source_dataset`: name of the source dataset recovered from a results group's name -/
-def getSource (par : Parent) (grpName : Str) : Except PyErr Str :=
+/-- the name-based recovery: `<dataset>-<tool>_NNN` names its source, which must sit next to the group -/
+def getSourceByName (par : Parent) (grpName : Str) : Except PyErr Str :=
   match splitDash grpName with
   | [d, _] =>
     match par.find? (fun e => e.name = d) with
     | some e => if e.kind = .dataset then .ok d else .error .valueErr
     | none => .error .keyErr
   | _ => .error .valueErr
+
+/-- `get_source_dataset`: the source recorded in `source_000` when there is one (the group need not sit next
+    to its source), otherwise the dataset named in the group's name -/
+def getSource (par : Parent) (grpName : Str) : Except PyErr Str :=
+  match (par.find? (fun e => e.name = grpName)).bind (·.source) with
+  | some d => .ok d
+  | none => getSourceByName par grpName
 
 /-- `del parent[name]` -/
 def delete (par : Parent) (name : Str) : Parent := par.filter (fun e => e.name ≠ name)
